@@ -700,3 +700,25 @@ Proof. intros V Hy. exact (fmt_iso_reads_back t (valid_in_format_range t V Hy)).
 Lemma fmt_compact_fixed_width t : valid_dt t -> 0 <= year t <= 9999 ->
   length (fmt_compact t) = 16%nat /\ parse_compact (fmt_compact t) = Some t.
 Proof. intros V Hy. exact (fmt_compact_reads_back t (valid_in_format_range t V Hy)). Qed.
+
+(* ------------------------------------------------------------------------------------------ *)
+(* I. size of the result (for the i64 argument)                                                 *)
+
+Lemma dby_fast_lower n : 365 * Z.of_nat n <= dby_fast (1970 + Z.of_nat n).
+Proof.
+  induction n as [|n IH]; [vm_compute; discriminate|].
+  replace (1970 + Z.of_nat (S n)) with (1970 + Z.of_nat n + 1) by lia.
+  rewrite dby_fast_succ. pose proof (ylen_bounds (1970 + Z.of_nat n)). lia.
+Qed.
+
+(* the year of a valid date-time denoting instant s >= 0 lies in 1970 .. 1970 + s/31536000 *)
+Theorem result_year_bound t s : valid_dt t -> secs_of_civil t = s -> 0 <= s ->
+  1970 <= year t <= 1970 + s / 31536000.
+Proof.
+  intros V S Hs. pose proof (year_ge_1970 t V ltac:(lia)) as Hy. split; [exact Hy|].
+  rewrite secs_closed_form in S by (now apply valid_month).
+  destruct V as (Vd & Hh & Hi & Hsec). pose proof (doy_bounds _ _ _ Vd) as B.
+  pose proof (dby_fast_lower (Z.to_nat (year t - 1970))) as L.
+  replace (1970 + Z.of_nat (Z.to_nat (year t - 1970))) with (year t) in L by lia.
+  unfold secs_fast, abs_days_fast, tod in S. lia.
+Qed.
